@@ -75,6 +75,7 @@ type Scenario struct {
 	Recover   bool     `json:"recover"`
 	Keys      []string `json:"keys"` // all keys to audit
 	Others    []OtherTxn `json:"others"` // unused
+	ManagedTTL uint64  `json:"managed_ttl"` // transaction.ManagedLockTTL in ms (0 = default 20000): small values make heart-beats observable
 	Program   []Step   `json:"program"` // multi-transaction step program (C06 / C01); when set, Txn is ignored
 	Txns      map[string]TxnSpec `json:"txns"` // specs of the transactions named in Program (ops unused)
 }
@@ -237,7 +238,7 @@ func (e *env) applyOps(ctx context.Context, st *tikv.KVStore, txn *transaction.K
 			lctx := kv.NewLockCtx(fu, kv.LockNoWait, time.Now())
 			if op.Op == "insert" || op.Op == "insdel" {
 				// TiDB sets the presume flag first and locks with the existence check
-				err = txn.GetMemBuffer().SetWithFlags(k, []byte(op.V), kv.SetPresumeKeyNotExists)
+				err = txn.GetMemBuffer().SetWithFlags(k, []byte(op.V), kv.SetPresumeKeyNotExists, kv.SetNewlyInserted)
 				if err != nil {
 					return err
 				}
@@ -253,9 +254,9 @@ func (e *env) applyOps(ctx context.Context, st *tikv.KVStore, txn *transaction.K
 		case "del":
 			err = txn.Delete(k)
 		case "insert":
-			err = txn.GetMemBuffer().SetWithFlags(k, []byte(op.V), kv.SetPresumeKeyNotExists)
+			err = txn.GetMemBuffer().SetWithFlags(k, []byte(op.V), kv.SetPresumeKeyNotExists, kv.SetNewlyInserted)
 		case "insdel":
-			err = txn.GetMemBuffer().SetWithFlags(k, []byte(op.V), kv.SetPresumeKeyNotExists)
+			err = txn.GetMemBuffer().SetWithFlags(k, []byte(op.V), kv.SetPresumeKeyNotExists, kv.SetNewlyInserted)
 			if err == nil {
 				err = txn.Delete(k)
 			}
@@ -501,7 +502,7 @@ func runProgram(sc *Scenario, e *env, out map[string]interface{}) {
 		pt := txns[st.T]
 		cid := clientOf(st.T)
 		store := e.store(cid)
-		if st.Op != "begin" && st.Op != "split" && st.Op != "clock" && (pt == nil || pt.done) {
+		if st.Op != "begin" && st.Op != "split" && st.Op != "clock" && st.Op != "sleep" && (pt == nil || pt.done) {
 			res["skipped"] = true
 			record(i, st, res)
 			return
@@ -522,7 +523,7 @@ func runProgram(sc *Scenario, e *env, out map[string]interface{}) {
 		case "del":
 			err = pt.txn.Delete(key(st.K))
 		case "insert":
-			err = pt.txn.GetMemBuffer().SetWithFlags(key(st.K), []byte(st.V), kv.SetPresumeKeyNotExists)
+			err = pt.txn.GetMemBuffer().SetWithFlags(key(st.K), []byte(st.V), kv.SetPresumeKeyNotExists, kv.SetNewlyInserted)
 		case "get":
 			v, e2 := pt.txn.Get(ctx, key(st.K))
 			if e2 != nil {
@@ -682,6 +683,8 @@ func runProgram(sc *Scenario, e *env, out map[string]interface{}) {
 			e.trace.add(Event{Kind: "told", Client: cid, F: map[string]interface{}{"start": pt.txn.StartTS(), "res": "ok", "finish": "rollback"}})
 		case "split":
 			e.split(key(st.K))
+		case "sleep":
+			time.Sleep(time.Duration(st.Wait) * time.Millisecond)
 		case "clock":
 			e.clk.offsetMs.Add(3600 * 1000)
 		}
@@ -813,6 +816,11 @@ func runProgram(sc *Scenario, e *env, out map[string]interface{}) {
 
 func runScenario(sc *Scenario) map[string]interface{} {
 	out := map[string]interface{}{"id": sc.ID}
+	if sc.ManagedTTL > 0 {
+		atomic.StoreUint64(&transaction.ManagedLockTTL, sc.ManagedTTL)
+	} else {
+		atomic.StoreUint64(&transaction.ManagedLockTTL, 20000)
+	}
 	e, err := newEnv(sc)
 	if err != nil {
 		out["fatal"] = err.Error()
